@@ -4,6 +4,7 @@ package main
 // (zz_contracts_verif.go, //go:build verif) next to the code in /repo; every line starts with //@.
 
 import (
+	"go/types"
 	"fmt"
 	"os"
 	"path/filepath"
@@ -484,6 +485,9 @@ func (p *parser) primary() *SExpr {
 type AtCall struct {
 	Key    string
 	Clause Clause
+	Let    string     // at-call "key" let x := expr: the ghost register $x takes the value of expr in the state in which key is entered
+	LetT   types.Type // type of the register (known once the expression has been evaluated)
+	LetS   Sort
 }
 
 type Clause struct {
@@ -836,7 +840,20 @@ func (cs *ContractSet) LoadContractText(text, path, pkgName string) error {
 					return fail(i, fmt.Errorf("at-call needs a quoted function key"))
 				}
 				k := strings.Index(r[1:], "\"") + 1
-				c, err := parseClause(strings.TrimSpace(r[k+1:]))
+				body := strings.TrimSpace(r[k+1:])
+				if strings.HasPrefix(body, "let ") {
+					j := strings.Index(body, ":=")
+					if j < 0 {
+						return fail(i, fmt.Errorf("at-call let needs :="))
+					}
+					e, err := ParseSpecExpr(strings.TrimSpace(body[j+2:]))
+					if err != nil {
+						return fail(i, err)
+					}
+					cur.AtCalls = append(cur.AtCalls, AtCall{Key: r[1:k], Let: strings.TrimSpace(body[4:j]), Clause: Clause{Expr: e, Text: body}})
+					break
+				}
+				c, err := parseClause(body)
 				if err != nil {
 					return fail(i, err)
 				}
